@@ -105,7 +105,7 @@ def make_merge_check(pid):
 
 
 for _pid in ('C01', 'C02', 'C03', 'C04', 'C05', 'C06', 'C07', 'C12'):
-    CHECKS[_pid] = {'run': make_merge_check(_pid), 'signatures': {}, 'search': None}
+    CHECKS[_pid] = {'run': make_merge_check(_pid), 'signatures': merge_family.SIGNATURES.get(_pid, {}), 'search': None}
 
 
 from . import coll_family  # noqa: E402
